@@ -7,6 +7,7 @@ import (
 	"go/ast"
 	"go/token"
 	"go/types"
+	"golang.org/x/tools/go/types/typeutil"
 	"sort"
 	"strconv"
 	"strings"
@@ -161,6 +162,16 @@ func checkC01(c *Ctx) {
 						hdrBadPos = gen(fd.Pos())
 					}
 					// path substitutions / query encoding
+					valuesVars := map[string]bool{} // locals holding a url.Values
+					ast.Inspect(fd.Body, func(n ast.Node) bool {
+						if as, ok := n.(*ast.AssignStmt); ok && len(as.Lhs) == 1 && len(as.Rhs) == 1 {
+							rs := types.ExprString(as.Rhs[0])
+							if id, ok := as.Lhs[0].(*ast.Ident); ok && (rs == "url.Values{}" || rs == "make(url.Values)") {
+								valuesVars[id.Name] = true
+							}
+						}
+						return true
+					})
 					ast.Inspect(fd.Body, func(n ast.Node) bool {
 						call, ok := n.(*ast.CallExpr)
 						if !ok {
@@ -168,7 +179,8 @@ func checkC01(c *Ctx) {
 						}
 						switch types.ExprString(call.Fun) {
 						case "strings.Replace", "strings.ReplaceAll":
-							if len(call.Args) >= 3 && types.ExprString(call.Args[0]) == "path" {
+							// replacing a "{placeholder}" literal: a path-variable substitution, whatever the path local is called
+							if ph := types.ExprString(call.Args[min(1, len(call.Args)-1)]); len(call.Args) >= 3 && strings.HasPrefix(ph, `"{`) && strings.HasSuffix(ph, `}"`) {
 								nSubst++
 								inner, ok := ast.Unparen(call.Args[2]).(*ast.CallExpr)
 								if !ok || types.ExprString(inner.Fun) != "url.PathEscape" {
@@ -176,14 +188,25 @@ func checkC01(c *Ctx) {
 									escBadPos = gen(call.Pos())
 								}
 							}
-						case "queryParams.Set", "queryParams.Add":
-							nQuery++
+						}
+						// <v>.Set / <v>.Add on a local url.Values
+						if sel, ok := call.Fun.(*ast.SelectorExpr); ok && (sel.Sel.Name == "Set" || sel.Sel.Name == "Add") {
+							if id, ok := sel.X.(*ast.Ident); ok && valuesVars[id.Name] {
+								nQuery++
+							}
 						}
 						return true
 					})
-					if strings.Contains(nodeSrc(u, fset, fd), "queryParams") {
-						src := nodeSrc(u, fset, fd)
-						if !strings.Contains(src, "queryParams := url.Values{}") || !strings.Contains(src, `reqURL += "?" + queryParams.Encode()`) {
+					for v := range valuesVars {
+						// the collected values reach the URL through Encode(), after a "?"
+						enc := false
+						ast.Inspect(fd.Body, func(n ast.Node) bool {
+							if be, ok := n.(*ast.BinaryExpr); ok && be.Op == token.ADD && types.ExprString(be.X) == `"?"` && types.ExprString(be.Y) == v+".Encode()" {
+								enc = true
+							}
+							return true
+						})
+						if !enc {
 							qBad = "query string is not built with url.Values{} … Encode()"
 							qBadPos = gen(fd.Pos())
 						}
@@ -231,11 +254,10 @@ func checkC01(c *Ctx) {
 	// ---- R01b
 	bodySrv := []string{}
 	if _, lit := middlewareLit(ep); lit != nil {
-		ast.Inspect(lit.Body, func(n ast.Node) bool {
-			if ifs, ok := n.(*ast.IfStmt); ok && strings.Contains(types.ExprString(ifs.Cond), "httpMethod ==") {
-				bodySrv = verbSet(ifs.Cond)
-			}
-			return true
+		// the verbs under which the middleware reaches the body decoder, however the guard is written
+		bodySrv = guardConstSet(ep.Info, lit.Body, func(call *ast.CallExpr) bool {
+			f, _ := typeutil.Callee(ep.Info, call).(*types.Func)
+			return f != nil && ep.RecName(f) == "bindDataBasedOnContentType"
 		})
 	}
 	get := func(pkg, fn, hint string) ([]string, string) {
